@@ -267,11 +267,11 @@ def state_labels_large(n, r):
     return [(i // w, i % w) for i in range(n)]
 
 
-def large_mdp_specs(flavour="discounted", min_states=16, max_states=45, max_actions=3, max_out=4, gammas=None):
+def large_mdp_specs(flavour="discounted", min_states=16, max_states=45, max_actions=3, max_out=4, gammas=None, min_actions=1):
     """MDPs with tens of states (sparse / dense / ragged action sets); proper flavours ('ssp', 'dproper') are built on a
     random order so that every policy reaches the single goal."""
     g = st.just(1.0) if flavour in ("ssp", "negative", "average") else st.sampled_from(gammas or [0.5, 0.9, 0.95, 0.99])
-    return st.tuples(st.just(flavour), st.integers(min_states, max_states), st.integers(1, max_actions), st.integers(1, max_out),
+    return st.tuples(st.just(flavour), st.integers(min_states, max_states), st.integers(min_actions, max_actions), st.integers(1, max_out),
                      g, st.sampled_from(["sparse", "sparse", "dense", "ragged"]), st.integers(0, 2 ** 40)).map(_expand_large)
 
 
